@@ -6,6 +6,7 @@ Python code on the same lines and diffs the two streams.
 import FsVerif.Model.Basic
 import FsVerif.Model.PosStore
 import FsVerif.Model.BufStore
+import FsVerif.Model.PrioReq
 open FsVerif
 
 def parseInt (s : String) : Option Int := s.toInt?
@@ -29,6 +30,7 @@ inductive M where
   | none
   | pos (s : PosStore)
   | buf (s : BufStore)
+  | prq (s : PrioReq)
 
 def showRes : PosStore.Res → String
   | .ok => "ok" | .tok i => s!"tok {i}" | .item x => s!"item {x.id}"
@@ -67,6 +69,18 @@ def bufOp (w : List String) : Option BufStore.Op :=
   | ["final"] => some .final
   | _ => none
 
+def prqOp (w : List String) : Option PrioReq.Op :=
+  match w with
+  | ["pput", p, i, k] => do pure (.put (← parseInt p) { id := (← parseNat i), kind := (← parseNat k) })
+  | ["pget", p] => do pure (.get (← parseInt p))
+  | ["cancel", i] => do pure (.cancel (← parseNat i))
+  | ["kstep"] => some .kstep
+  | ["settle"] => some .settle
+  | _ => none
+
+def showPFired (l : List (Nat × Option Item)) : String :=
+  " ".intercalate (l.map fun p => match p.2 with | some x => s!"{p.1}:{x.id}" | none => s!"{p.1}")
+
 def stepLine (m : M) (line : String) : M × String :=
   let w := (line.trimAscii.toString.splitOn " ").filter (· ≠ "")
   match w with
@@ -77,6 +91,10 @@ def stepLine (m : M) (line : String) : M × String :=
     | some c, some p, some f, some d =>
       (.pos (PosStore.init { cap := c, prio := p != 0, filter := f != 0, trigDelay := d }), "new")
     | _, _, _, _ => (m, "bad-op")
+  | ["new", "prq", cap] =>
+    match parseNat cap with
+    | some c => (.prq (PrioReq.init c), "new")
+    | none => (m, "bad-op")
   | ["new", fam, cap, mode] =>
     if fam == "buf" || fam == "bufedge" then
       match parseCap cap with
@@ -86,6 +104,12 @@ def stepLine (m : M) (line : String) : M × String :=
   | _ =>
     match m with
     | .none => (m, "bad-op")
+    | .prq s =>
+      match prqOp w with
+      | some op =>
+        let s' := s.step op
+        (.prq s', if s'.err then "err ValueError" else s!"req {s.nextId} | {showPFired s'.fired} | {s'.items.length}")
+      | none => (m, "bad-op")
     | .buf s =>
       match w with
       | ["stat"] => (m, s!"stat {s.avgNum} {s.avgDen} {s.level} {s.now}")
